@@ -49,8 +49,13 @@ CONSTANTS
   Effects,     \* BOOLEAN: panicking / foreign-call / failing-check atoms in every hole (C23)
   RetTypes,    \* set of return types the root hole ranges over
   EnvCap,      \* at most this many argument environments per program
-  Focus,       \* "all" | "ops": "ops" derives only operator productions (&&, ||, !, ==, <, or, is, add, ...)
-               \*   so that sampled derivations are nests of infix/prefix/postfix operators (precedence)
+  Focus,       \* "all" | "ops" | "ret"
+               \*   "ops" derives only operator productions (&&, ||, !, ==, <, or, is, add, ...) so that
+               \*         derivations are nests of infix/prefix/postfix operators (precedence)
+               \*   "ret" derives nests of operand-holding constructs (builtin and function-call arguments,
+               \*         struct literal fields, comparisons, match) with early `return` atoms, and the
+               \*         function is *called* by a second function that uses the result as a non-first
+               \*         operand (the VM must drop every pending operand of the callee on return)
   Quirks       \* BOOLEAN: also derive accepted-but-odd programs (C24): binding alternations, partial struct literals
 
 VARIABLES ast,    \* the syntax tree under construction (a function body with holes)
@@ -237,6 +242,16 @@ EvalKids(ks, i, env, vs, l) ==
        IF r.k # "val" THEN [k |-> r.k, vs |-> <<>>, v |-> r.v, log |-> l \o r.log]
        ELSE EvalKids(ks, i + 1, env, Append(vs, r.v), l \o r.log)
 
+BindArgs(params, args) == [x \in {params[i][1] : i \in DOMAIN params} |->
+                             args[CHOOSE i \in DOMAIN params : params[i][1] = x]]
+
+(* a function call: a `return` gives the value, falling off the end panics *)
+RunBody(body, env) ==
+  LET x == Exec(body, 1, env) IN
+  CASE x.k = "ret"  -> Val(x.v, x.log)
+    [] x.k = "fall" -> Panic(x.log)
+    [] OTHER        -> [k |-> x.k, v |-> x.v, log |-> x.log]
+
 FfiResult(f, args) == args[1]
 
 (* a struct literal: written fields from the kids, the others from the first source that has them *)
@@ -275,6 +290,8 @@ Apply(op, a, vs, l, env) ==
             [] a = "sub" -> Val(Checked(ISub(vs[1], vs[2])), l)
             [] a = "saturating_add" -> Val(Saturate(IAdd(vs[1], vs[2])), l)
             [] a = "saturating_sub" -> Val(Saturate(ISub(vs[1], vs[2])), l)
+            \* the generated function itself, called from the generated caller (Focus = "ret")
+            [] a = "callee" -> Pre(l, RunBody(env["callee"].body, BindArgs(env["callee"].params, vs)))
             [] OTHER -> Pre(l, CallFn(a, vs)))
 
 StrictOps == {"some", "ok", "err", "not", "is", "eq", "ne", "lt", "gt", "le", "ge",
@@ -364,16 +381,6 @@ ExecIf(ks, j, hasElse, env) ==
        IF r.k # "val" THEN Abrupt(r, env)
        ELSE IF r.v = VT THEN PreX(r.log, Exec(ks[j + 1][3], 1, env))
        ELSE PreX(r.log, ExecIf(ks, j + 2, hasElse, env))
-
-BindArgs(params, args) == [x \in {params[i][1] : i \in DOMAIN params} |->
-                             args[CHOOSE i \in DOMAIN params : params[i][1] = x]]
-
-(* a function call: a `return` gives the value, falling off the end panics *)
-RunBody(body, env) ==
-  LET x == Exec(body, 1, env) IN
-  CASE x.k = "ret"  -> Val(x.v, x.log)
-    [] x.k = "fall" -> Panic(x.log)
-    [] OTHER        -> [k |-> x.k, v |-> x.v, log |-> x.log]
 
 CallFn(f, args) == RunBody(Funcs[f].body, BindArgs(Funcs[f].params, args))
 
@@ -713,7 +720,9 @@ OneOf(S) == IF S = {} THEN {} ELSE {CHOOSE z \in S : TRUE}
    stack must be dropped by the callee's return sequence *)
 ReturnAtoms(frt, ctx) == {N("return", 0, <<a>>) : a \in OneOf(NarrowLits(frt) \cup VarsIn(frt, ctx))}
 Atoms(t, ctx, w, frt) ==
-  IF ~Effects THEN (IF w = "n" THEN NarrowLits(t) ELSE LitsOf(t)) \cup VarsIn(t, ctx)
+  IF Focus = "ret" THEN OneOf(NarrowLits(t)) \cup OneOf(VarsIn(t, ctx))
+                        \cup (IF w = "x" THEN {} ELSE ReturnAtoms(frt, ctx))
+  ELSE IF ~Effects THEN (IF w = "n" THEN NarrowLits(t) ELSE LitsOf(t)) \cup VarsIn(t, ctx)
   ELSE IF w = "n" THEN OneOf(NarrowLits(t) \cup VarsIn(t, ctx)) \cup {N("todo", 0, <<>>)}
                  \cup OneOf({Ffi(f, <<arg>>) : f \in FfiFor(t), arg \in FfiArgAtoms(t, ctx)})
   ELSE FxLits(t) \cup VarsIn(t, ctx)
@@ -763,7 +772,7 @@ MatchTypes == {TInt, TBool, TStr, TColor, TOpt(TInt), TOpt(TP), TRes(TInt, TStr)
 
 (* templates (trees with holes one level below) whose value has type t *)
 Prods(t, ctx, d, frt) ==
-  LET W == IF Focus = "ops" THEN "n" ELSE "f"
+  LET W == IF Focus \in {"ops", "ret"} THEN "n" ELSE "f"
       H(t1) == Hole(t1, ctx, d - 1, frt, W)
       HC(t1, c1) == Hole(t1, c1, d - 1, frt, W)
       HN(t1, c1) == Hole(t1, c1, d - 1, frt, "n")
@@ -830,17 +839,33 @@ Prods(t, ctx, d, frt) ==
                 [] OTHER -> {})
       (* operator nests: of the two operands of a binary operator only one is expanded further *)
       Zero(k) == <<k[1], [k[2] EXCEPT !.d = 0], k[3]>>
-      OneSided(tp) == IF Len(tp[3]) = 2 /\ tp[3][1][1] = "hole" /\ tp[3][2][1] = "hole" /\ d > 1
-                      THEN {<<tp[1], tp[2], <<tp[3][1], Zero(tp[3][2])>>>>, <<tp[1], tp[2], <<Zero(tp[3][1]), tp[3][2]>>>>}
-                      ELSE {tp}
+      OneSided(tp) ==
+        LET HI == {i \in DOMAIN tp[3] : tp[3][i][1] = "hole"} IN
+        IF Cardinality(HI) <= 1 \/ d <= 1 THEN {tp}
+        ELSE {<<tp[1], tp[2], [i \in DOMAIN tp[3] |-> IF i \in HI /\ i # j THEN Zero(tp[3][i]) ELSE tp[3][i]]>> : j \in HI}
       OpsAll ==
         (IF TOpt(t) \in AllTypes THEN {N("coalesce", 0, <<HX(TOpt(t)), H(t)>>)} ELSE {})
         \cup UNION {{N("dot", StructDefs[sn][i][1], <<HX(TStruct(sn))>>) :
                        i \in {i \in DOMAIN StructDefs[sn] : StructDefs[sn][i][2] = t}} : sn \in {"P", "S"}}
         \cup (IF t \in {TInt, TBool, TOpt(TInt), TP, TQ} THEN Specific ELSE {})
       OpsOnly == UNION {OneSided(tp) : tp \in OpsAll}
+      (* constructs that hold already evaluated operands on the VM stack while a later operand
+         is evaluated: an early `return` in that operand must discard all of them *)
+      v0 == Fresh(ctx)
+      RetAll ==
+        {Call(f, [i \in DOMAIN Funcs[f].params |-> H(Funcs[f].params[i][2])]) :
+           f \in {f \in DOMAIN Funcs : Funcs[f].ret = t}}
+        \cup {N("match", sh, <<H(TOpt(TInt))>> \o [i \in DOMAIN sh |-> HN(t, ArmCtx(sh[i], TOpt(TInt), ctx))]) :
+                sh \in {<<PPats(<<PV(VNone)>>), PPats(<<PB("some", v0)>>)>>}}
+        \cup (CASE t = TInt -> {Call(f, <<H(TInt), H(TInt)>>) : f \in {"saturating_add", "saturating_sub"}}
+                [] t = TBool -> {N(op, 0, <<H(TInt), H(TInt)>>) : op \in {"lt", "eq"}}
+                [] t = TOpt(TInt) -> {Call("add", <<H(TInt), H(TInt)>>), N("some", 0, <<H(TInt)>>)}
+                [] t = TP -> {N("struct", <<"P", <<"a", "b">>, <<>>>>, <<H(TInt), H(TBool)>>)}
+                [] OTHER -> {})
+      RetNest == UNION {OneSided(tp) : tp \in RetAll}
   IN IF Quirks /\ d = MaxDepth THEN Quirky
      ELSE IF Focus = "ops" THEN OpsOnly
+     ELSE IF Focus = "ret" THEN RetNest
      ELSE Generic \cup Specific
 
 (* statement-list templates for a function returning frt: a list that always ends in a return *)
@@ -983,22 +1008,35 @@ Done == phase = "done"
      NoStuck       a well-typed program has a semantics for every argument tuple
      Preservation  a function returning rt returns a value of type rt
    (Quirks-mode programs are accepted by the real compiler but outside the type system.)    *)
+(* Focus = "ret": the derived function is the callee; the caller passes its parameters on and
+   uses the result as a non-first operand (the value beneath it on the VM stack matters)      *)
+CallerOf(ps) ==
+  LET call == Call("callee", [i \in DOMAIN ps |-> Var(ps[i][1])]) IN
+  CASE rt = TInt  -> [crt |-> TInt,  body |-> <<RetS(Call("saturating_add", <<Lit(I(0)), call>>))>>]
+    [] rt = TBool -> [crt |-> TBool, body |-> <<RetS(N("eq", 0, <<Lit(VT), call>>))>>]
+    [] rt = TOpt(TInt) -> [crt |-> TInt, body |-> <<RetS(Call("saturating_add", <<Lit(I(0)), N("coalesce", 0, <<call, Lit(I(0))>>)>>))>>]
+    [] rt = TP    -> [crt |-> TInt,  body |-> <<RetS(Call("h_pick", <<Lit(VT), N("dot", "a", <<call>>), Lit(I(5))>>))>>]
 Emit ==
   Done =>
     LET ps == Params
         A == ArgTuples(ps)
         typed == BodyOk(Body, ps, rt)
-        E == IF typed THEN {[args |-> a, exp |-> RunBody(Body, EnvOf(ps, a))] : a \in A}
+        withCaller == Focus = "ret"
+        cl == CallerOf(ps)
+        Run(a) == IF withCaller
+                  THEN RunBody(cl.body, EnvOf(ps, a) @@ ("callee" :> [params |-> ps, body |-> Body]))
+                  ELSE RunBody(Body, EnvOf(ps, a))
+        E == IF typed THEN {[args |-> a, exp |-> Run(a)] : a \in A}
              ELSE {[args |-> a, exp |-> [k |-> "skip", v |-> VNone, log |-> <<>>]] : a \in A}
+        base == [rt |-> rt, params |-> ps, body |-> Body, typed |-> typed, fx |-> CountFx(ast), envs |-> E]
     IN \* deeper derivations may bind a variable of type `never` (the type of `None`'s content)
        \* and use it where a struct/optional is required: the type system rejects those,
        \* they are emitted as untyped candidates (C24) and not evaluated
        /\ Assert(typed \/ Quirks \/ MaxDepth > 1, <<"generator derived an ill-typed program", Body>>)
        /\ Assert(\A e \in E : e.exp.k \in {"val", "panic", "skip"}, <<"stuck", Body>>)
-       /\ Assert(\A e \in E : e.exp.k = "val" => Fits(TypeOfValue(e.exp.v), rt),
+       /\ Assert(\A e \in E : e.exp.k = "val" => Fits(TypeOfValue(e.exp.v), IF withCaller THEN cl.crt ELSE rt),
                  <<"value of the wrong type", Body>>)
-       /\ PrintT("REPLAY " \o ToJson([rt |-> rt, params |-> ps, body |-> Body, typed |-> typed,
-                                        fx |-> CountFx(ast), envs |-> E]))
+       /\ PrintT("REPLAY " \o ToJson(IF withCaller THEN base @@ [crt |-> cl.crt, caller |-> cl.body] ELSE base))
 
 PreludeLine == PrintT("PRINT PRELUDE " \o ToJson(Prelude))
 =============================================================================
